@@ -55,7 +55,7 @@
      descriptors only (a client cannot put a listening socket in error).
    * active_channels: test-and-delete is one step (the socket map's is two).
    * File descriptors are not reused (A's number is never handed to B). *)
-From Coq Require Import List Arith Bool.
+From Coq Require Import List Arith ZArith Bool.
 Import ListNotations.
 
 (* ---------------------------------------------------------------------- *)
@@ -157,7 +157,8 @@ Inductive instr :=
 | IContPre (c : chan)           (* send_continue: request.expect_continue = False *)
 | IContAppend (c : chan)        (* outbufs[-1].append(payload); counts; sent_continue = True *)
 | IFlushStart (c : chan) (dc : bool) (* _flush_some: sent = 0 *)
-| IFlush (c : chan) (dc : bool) (* one turn of the inner loop: outbuf.__len__(); chunk = get(); self.send(chunk, do_close=dc) *)
+| IFlush (c : chan) (dc : bool) (* one turn of the inner loop: outbuf.__len__(); chunk = outbuf.get(sendbuf_len) *)
+| IFlushSend (c : chan) (dc : bool) (m : nat) (* self.send(chunk, do_close=dc) with len(chunk) = m; outbuf.skip(num_sent); counts *)
 (* -- handle_close *)
 | IHClose (c : chan)            (* entry of HTTPChannel.handle_close (pushes the sequence below) *)
 | ICloseBufs (c : chan)         (* for outbuf in outbufs: close(); total_outbufs_len = 0; connected = False *)
@@ -227,7 +228,7 @@ Record chan_st := mkChan {
   wc : bool;                 (* self.will_close *)
   cwf : bool;                (* self.close_when_flushed *)
   bufc : bool;               (* close() has been called on every output buffer *)
-  pend : nat;                (* self.total_outbufs_len *)
+  pend : Z;                  (* self.total_outbufs_len (an int: it does go negative when two threads flush, F18) *)
   buf : nat;                 (* bytes the output buffers hold *)
   nreq : nat;                (* len(self.requests) *)
   pexp : bool;               (* self.request is not None and .expect_continue and .headers_finished *)
@@ -241,7 +242,7 @@ Record chan_st := mkChan {
 }.
 
 Definition chan0 : chan_st :=
-  mkChan false false false false false SNone false false false false 0 0 0 false false false None None CvNone 0 0.
+  mkChan false false false false false SNone false false false false 0%Z 0 0 false false false None None CvNone 0 0.
 
 Record thread_st := mkTh {
   stk : list instr;
@@ -325,7 +326,7 @@ Definition upd_fileno (x : chan_st) (b : bool) := mkChan (created x) (accepted x
 Definition upd_sock (x : chan_st) (v : sockst) (k : nat) := mkChan (created x) (accepted x) (in_map x) (in_act x) (fileno x) v (conn x) (wc x) (cwf x) (bufc x) (pend x) (buf x) (nreq x) (pexp x) (sentc x) (queued x) (olock x) (rlock x) (cv x) k (wire x).
 Definition upd_conn (x : chan_st) (b : bool) := mkChan (created x) (accepted x) (in_map x) (in_act x) (fileno x) (sock x) b (wc x) (cwf x) (bufc x) (pend x) (buf x) (nreq x) (pexp x) (sentc x) (queued x) (olock x) (rlock x) (cv x) (nclose x) (wire x).
 Definition upd_flags (x : chan_st) (w f : bool) := mkChan (created x) (accepted x) (in_map x) (in_act x) (fileno x) (sock x) (conn x) w f (bufc x) (pend x) (buf x) (nreq x) (pexp x) (sentc x) (queued x) (olock x) (rlock x) (cv x) (nclose x) (wire x).
-Definition upd_bufs (x : chan_st) (bc : bool) (p b : nat) (w : nat) := mkChan (created x) (accepted x) (in_map x) (in_act x) (fileno x) (sock x) (conn x) (wc x) (cwf x) bc p b (nreq x) (pexp x) (sentc x) (queued x) (olock x) (rlock x) (cv x) (nclose x) w.
+Definition upd_bufs (x : chan_st) (bc : bool) (p : Z) (b : nat) (w : nat) := mkChan (created x) (accepted x) (in_map x) (in_act x) (fileno x) (sock x) (conn x) (wc x) (cwf x) bc p b (nreq x) (pexp x) (sentc x) (queued x) (olock x) (rlock x) (cv x) (nclose x) w.
 Definition upd_req (x : chan_st) (n : nat) (pe sc q : bool) := mkChan (created x) (accepted x) (in_map x) (in_act x) (fileno x) (sock x) (conn x) (wc x) (cwf x) (bufc x) (pend x) (buf x) n pe sc q (olock x) (rlock x) (cv x) (nclose x) (wire x).
 Definition upd_olock (x : chan_st) (l : option (tid * nat)) (v : cvst) := mkChan (created x) (accepted x) (in_map x) (in_act x) (fileno x) (sock x) (conn x) (wc x) (cwf x) (bufc x) (pend x) (buf x) (nreq x) (pexp x) (sentc x) (queued x) l (rlock x) v (nclose x) (wire x).
 Definition upd_rlock (x : chan_st) (l : option tid) := mkChan (created x) (accepted x) (in_map x) (in_act x) (fileno x) (sock x) (conn x) (wc x) (cwf x) (bufc x) (pend x) (buf x) (nreq x) (pexp x) (sentc x) (queued x) (olock x) l (cv x) (nclose x) (wire x).
@@ -422,8 +423,8 @@ Definition release (l : option (tid * nat)) : option (tid * nat) :=
   match l with Some (o, S (S n)) => Some (o, S n) | _ => None end.
 
 Definition readable_c (g : cfg) (x : chan_st) : bool :=
-  negb (wc x || cwf x || (lookahead g <? nreq x) || (0 <? pend x)).
-Definition writable_c (x : chan_st) : bool := (0 <? pend x) || wc x || cwf x.
+  negb (wc x || cwf x || (lookahead g <? nreq x) || negb (pend x =? 0)%Z).
+Definition writable_c (x : chan_st) : bool := (0 <? pend x)%Z || wc x || cwf x.
 
 Definition asked_r (g : cfg) (s : state) : list fdt :=
   (if trg_in_map s then [FT] else []) ++ (if lst_in_map s then [FL] else [])
@@ -583,14 +584,14 @@ Definition exec (g : cfg) (t : tid) (i : instr) (a : answer) (s : state) : resul
   | IHwChoose c =>
     let x := getc s c in
     if nreq x =? 0 then Norm s (flush_some c true ++ [KFlushExc c; IHwTail c]) []
-    else if send_bytes g <=? pend x then Norm s [ITryAcqO c; KFlushExc c; IHwTail c] []
+    else if (Z.of_nat (send_bytes g) <=? pend x)%Z then Norm s [ITryAcqO c; KFlushExc c; IHwTail c] []
     else Norm s [IHwTail c] []
   | IHwNotify c =>
     let x := getc s c in
-    if pend x <? hw g then Norm s [INotifyO c] [] else Norm s [] []
+    if (pend x <? Z.of_nat (hw g))%Z then Norm s [INotifyO c] [] else Norm s [] []
   | IHwTail c =>
     let x := getc s c in
-    let x1 := if cwf x && (pend x =? 0) then upd_flags x true false else x in
+    let x1 := if cwf x && (pend x =? 0)%Z then upd_flags x true false else x in
     if wc x1 then Norm (setc s c x1) (hclose c) [] else Norm (setc s c x1) [] []
   | IExpt c =>
     let x := getc s c in
@@ -613,13 +614,14 @@ Definition exec (g : cfg) (t : tid) (i : instr) (a : answer) (s : state) : resul
     let x := getc s c in
     if bufc x && negb (append_works a) then Raise s XValueError []
     else
-      let x1 := upd_bufs x (bufc x) (pend x + 25) (buf x + 25) (wire x) in
+      let x1 := upd_bufs x (bufc x) (pend x + 25)%Z (buf x + 25) (wire x) in
       Norm (setc s c (upd_req x1 (nreq x1) (pexp x1) true (queued x1))) [] []
   | IFlushStart c dc => Norm (setth s t (set_lsent me false)) [IFlush c dc] []
   | IFlush c dc =>
     let x := getc s c in
-    if buf x =? 0 then Norm s [] []
-    else
+    if buf x =? 0 then Norm s [] [] else Norm s [IFlushSend c dc (Nat.min (buf x) (sndbuf g))] []
+  | IFlushSend c dc m =>
+    let x := getc s c in
       match sock x with
       | SNone => Raise s XAttributeError []
       | SClosed =>   (* EBADF from the kernel: in _DISCONNECTED *)
@@ -627,9 +629,13 @@ Definition exec (g : cfg) (t : tid) (i : instr) (a : answer) (s : state) : resul
       | SOpen =>
         match a with
         | ASend (SOk n) =>
-          if (0 <? n) && (n <=? Nat.min (buf x) (sndbuf g)) then
-            Norm (setth (setc s c (upd_bufs x (bufc x) (pend x - n) (buf x - n) (wire x + n))) t (set_lsent me true))
-                 [IFlush c dc] [LEnv c a; LWire c n]
+          if (0 <? n) && (n <=? m) then
+            if n <=? buf x then
+              Norm (setth (setc s c (upd_bufs x (bufc x) (pend x - Z.of_nat n)%Z (buf x - n) (wire x + n))) t (set_lsent me true))
+                   [IFlush c dc] [LEnv c a; LWire c n]
+            else
+              (* the other flusher got there first: outbuf.skip(num_sent) raises ValueError -- after the kernel took the bytes *)
+              Raise (setc s c (upd_bufs x (bufc x) (pend x) (buf x) (wire x + n))) XValueError [LEnv c a; LWire c n]
           else Blocked
         | ASend (SErr e) =>
           match e with
@@ -647,7 +653,7 @@ Definition exec (g : cfg) (t : tid) (i : instr) (a : answer) (s : state) : resul
   | IHClose c => Norm s (hclose_body c) [LHClose t c]
   | ICloseBufs c =>
     let x := getc s c in
-    let x1 := upd_bufs x true 0 (buf_left a x) (wire x) in
+    let x1 := upd_bufs x true 0%Z (buf_left a x) (wire x) in
     Norm (setc s c (upd_conn x1 false)) [] [LBufsClosed t c]
   | INotifyO c =>
     let x := getc s c in
@@ -723,7 +729,7 @@ Definition exec (g : cfg) (t : tid) (i : instr) (a : answer) (s : state) : resul
   | IWsChk1 c => if conn (getc s c) then Norm s [] [] else Raise s XClientDisconnected []
   | IFbh c =>
     let x := getc s c in
-    if hw g <? pend x then
+    if (Z.of_nat (hw g) <? pend x)%Z then
       Norm (setth s t (set_lexc me false)) ([IAcqO c] ++ flush_some c false ++ [KFlushExc c; IFbhAfter c; KRelO c]) []
     else Norm s [] []
   | IFbhAfter c =>
@@ -731,20 +737,20 @@ Definition exec (g : cfg) (t : tid) (i : instr) (a : answer) (s : state) : resul
     else Norm s [IFbhLoop c] []
   | IFbhLoop c =>
     let x := getc s c in
-    if conn x && (hw g <? pend x) then Norm s [IPull c; IWaitO c; IFbhLoop c] [] else Norm s [] []
+    if conn x && (Z.of_nat (hw g) <? pend x)%Z then Norm s [IPull c; IWaitO c; IFbhLoop c] [] else Norm s [] []
   | IWsChk2 c => if conn (getc s c) then Norm s [] [] else Raise s XClientDisconnected []
   | IWsAppend c n =>
     let x := getc s c in
     if bufc x && negb (append_works a) then Raise s XValueError []
-    else Norm (setc s c (upd_bufs x (bufc x) (pend x + n) (buf x + n) (wire x))) [] []
+    else Norm (setc s c (upd_bufs x (bufc x) (pend x + Z.of_nat n)%Z (buf x + n) (wire x))) [] []
   | IWsFlush c =>
     let x := getc s c in
-    if send_bytes g <=? pend x then
+    if (Z.of_nat (send_bytes g) <=? pend x)%Z then
       Norm (setth s t (set_lexc me false)) (flush_some c false ++ [KFlushExc c; IWsAfter c]) []
     else Norm s [] []
   | IWsAfter c =>
     let x := getc s c in
-    if lexc me || negb (lsent me) || (send_bytes g <=? pend x) then Norm s [IPull c] [] else Norm s [] []
+    if lexc me || negb (lsent me) || (Z.of_nat (send_bytes g) <=? pend x)%Z then Norm s [IPull c] [] else Norm s [] []
   | ISvcEnd c =>
     let x := getc s c in
     if lcof me then Norm s [IAcqR c; ISetCwf c; IRelR c; ISvcTail c] []
@@ -884,7 +890,7 @@ Definition wants (s : state) (t : tid) (i : instr) : bool :=
   match i with
   | ISelWait _ _ _ | IAccept | ISetOpts _ | IInitGso _ | IInitSbl _ | ICloseBufs _ | IApp _ | IErrTask _ => true
   | IRecv c | IExpt c => match sock (getc s c) with SOpen => true | _ => false end
-  | IFlush c _ => negb (buf (getc s c) =? 0) && match sock (getc s c) with SOpen => true | _ => false end
+  | IFlushSend c _ _ => match sock (getc s c) with SOpen => true | _ => false end
   | _ => false
   end.
 
@@ -898,7 +904,7 @@ Definition is_yield (s : state) (t : tid) (i : instr) : bool :=
   | IAcqO c => match olock (getc s c) with Some (o, _) => negb (tid_eqb o t) | None => true end
   | IRelO c | KRelO c => final_release (olock (getc s c))
   | IRecv c | IExpt c | ISockClose c => match sock (getc s c) with SNone => false | _ => true end
-  | IFlush c _ => negb (buf (getc s c) =? 0) && match sock (getc s c) with SNone => false | _ => true end
+  | IFlushSend c _ _ => match sock (getc s c) with SNone => false | _ => true end
   | _ => false
   end.
 
